@@ -116,6 +116,7 @@ func consumeNumber(data []byte, pos int, isFlag bool) int {
 	}
 	start := data[pos]
 	seenDot := start == '.'
+	seenExp := false
 	pos++
 	for ; pos < len(data); pos++ {
 		c := data[pos]
@@ -123,12 +124,13 @@ func consumeNumber(data []byte, pos int, isFlag bool) int {
 		case '0', '1', '2', '3', '4', '5', '6', '7', '8', '9':
 			continue
 		case '.':
-			if seenDot { // .5.5 is interpreted as 0.5 0.5
+			// .5.5 is interpreted as 0.5 0.5, and an exponent is an integer
+			if seenDot || seenExp {
 				return pos
 			}
 			// else continue: floating point
 			seenDot = true
-		case '-':
+		case '-', '+':
 			// new number, expected on exponents
 			if data[pos-1] == 'e' || data[pos-1] == 'E' {
 				continue
@@ -137,6 +139,7 @@ func consumeNumber(data []byte, pos int, isFlag bool) int {
 		default:
 			// accept numbers and exponents
 			if c == 'e' || c == 'E' {
+				seenExp = true
 				continue
 			}
 			return pos
